@@ -29,6 +29,7 @@ type TierCfg struct {
 	QueryTimeout int            `json:"query_timeout_ms"`
 	Params       map[string]int `json:"params"`
 	Witnesses    int            `json:"witnesses"`
+	SubShards    int            `json:"sub_shards"`
 	Skip         bool           `json:"skip"`
 }
 
@@ -189,6 +190,25 @@ func (c *checker) runReplay(bin, pkg, file string) (*nativeOutcome, error) {
 	return &no, nil
 }
 
+var siteRe = regexp.MustCompile(`^\(\*?([^()]+)\.([A-Za-z0-9_]+)\)\.([A-Za-z0-9_]+)`)
+var funcRe = regexp.MustCompile(`^([A-Za-z0-9_./-]+\.[A-Za-z0-9_]+)`)
+
+// panicSiteMatches: the function the engine blames must appear in the native panic stack
+// (sites without a function name, e.g. plain run-time errors, match any native panic).
+func panicSiteMatches(site, stack string) bool {
+	if m := siteRe.FindStringSubmatch(site); m != nil {
+		return strings.Contains(stack, m[1]+".(*"+m[2]+")."+m[3]+"(") || strings.Contains(stack, m[1]+"."+m[2]+"."+m[3]+"(")
+	}
+	if m := funcRe.FindStringSubmatch(site); m != nil && strings.Contains(m[1], "/") {
+		name := m[1]
+		if i := strings.Index(name, "["); i > 0 {
+			name = name[:i]
+		}
+		return strings.Contains(stack, name+"(") || strings.Contains(stack, name+"[")
+	}
+	return true
+}
+
 func has(ss []string, s string) bool {
 	for _, x := range ss {
 		if x == s {
@@ -325,6 +345,9 @@ func cmdCheck(args []string) int {
 				pre = *j.t.Preempt
 			}
 			a = append(a, "--preempt", strconv.Itoa(pre))
+			if j.t.SubShards > 1 {
+				a = append(a, "--sub", strconv.Itoa(j.t.SubShards))
+			}
 			if j.t.MaxPaths > 0 {
 				a = append(a, "--max-paths", strconv.Itoa(j.t.MaxPaths))
 			}
@@ -502,7 +525,7 @@ func cmdCheck(args []string) int {
 				vr.status = "confirmed" // (an assumption made after the assertion may fail natively; that is irrelevant)
 			case no.AssumeFailed:
 				vr.status = "assume-failed"
-			case vr.v.Kind == "panic" && no.Panic != "":
+			case vr.v.Kind == "panic" && no.Panic != "" && panicSiteMatches(vr.v.PanicSite, no.PanicStack):
 				vr.status = "confirmed"
 			case vr.v.Kind == "deadlock" && no.Deadlock:
 				vr.status = "confirmed"
